@@ -12,9 +12,8 @@ Property theorems about the executable mirrors of `core/src/proof/multi_proof.rs
 branch-free `slice::binary_search_by` of the toolchain and every panic site; they are tied to the real
 code by the `core-mp` differential run.
 
-Not proved here (held by the differential run and its oracles only):
-* completeness of `findIndexFor` (a key covered by some verified path is found) — needs monotonicity of
-  the comparison over `inner`.
+Completeness of `findIndexFor` (a key covered by some verified path is found, so the multi-proof answers
+every query as the individual path proofs do) is T7.2d–h in `Props/C07_FindIndex.lean`.
 Proved below: T7.4 `multiVerifyUpdate` returns the specified root of the updated set (T8.3 for
 multi-proofs; that it never reaches a panic site is T18.5 in `Props/C18.lean`); T7.5 `fromPathProofs` of
 honest path proofs succeeds and verifies (completeness); T7.6 the two together.
